@@ -231,11 +231,14 @@ META = {
     'technique': 'static analysis: guard dominance on the event trace (GUARDDOM), interprocedural writer set of the underlying list '
                  '(WHOWRITES), stdlib MutableSequence source parsed for mixin routing, reference-transcription comparison of every '
                  'primitive / label / aggregate method',
-    'level': 'Decides from the source that every addition into the underlying list is dominated by the consistency guard applied to '
-             'the same object, that only the four primitives write the list and the inherited append/extend/+= route through insert, '
-             'that the guard rejects non-frames and frames whose df/dt/fchans/fmin differ, that the primitives delegate to the list '
-             'with the caller\'s index, the label-assignment protocol of the ordered cadence, selection by label and the aggregate '
-             'properties. Out-of-range index normalisation (list clamping) is not decided.',
+    'level': 'Decides from the source that every addition into the underlying list is dominated by the consistency guard '
+             'applied to the same object, that only the four primitives write the list and the inherited append/extend/+= '
+             'route through insert, that the guard rejects non-frames and frames whose df/dt/fchans/fmin differ, that the '
+             "primitives delegate to the list with the caller's index, the label-assignment protocol of the ordered cadence, "
+             'selection by label and the aggregate properties. Out-of-range index normalisation (list clamping) is not '
+             'decided. References follow the Python list model: list.insert positions are compared after clamping, the label '
+             'is that of the clamped position, a label is attached only after the store succeeded, a tuple index selects like '
+             'a list of positions.',
     'note': 'Every path through a method is treated as feasible; the stdlib mixin routing is re-derived from the running '
             'interpreter\'s _collections_abc.py on every run.',
 }
